@@ -120,8 +120,6 @@ Definition op_tables_equiv (G : tables) : bool :=
   && Z.eqb (status_invalid_command G) (status_invalid_command spec_tables)
   && Z.eqb (status_of_cerr G UnexpectedEnd) (status_of_cerr spec_tables UnexpectedEnd).
 
-Lemma generated_op_tables : forallb (fun f => op_tables_equiv (gen_tables f)) all_feats = true.
-Proof. vm_compute. reflexivity. Qed.
 
 Lemma op_tables_equiv_route (G : tables) : op_tables_equiv G = true ->
   forall b, 0 <= b < 256 -> route_of G b = route_of spec_tables b.
@@ -135,11 +133,3 @@ Proof.
   apply route_eqb_eq in Gb. exact Gb.
 Qed.
 
-Lemma generated_route : forall f b, In f all_feats -> 0 <= b < 256 ->
-  route_of (gen_tables f) b = spec_route b.
-Proof.
-  intros f b Hf Hb.
-  pose proof generated_op_tables as G. rewrite forallb_forall in G. specialize (G f Hf).
-  rewrite (op_tables_equiv_route (gen_tables f) G b Hb).
-  apply route_of_spec. exact Hb.
-Qed.
